@@ -3,19 +3,29 @@ from vcommon import *
 import scen_common
 
 PID = "C03"
-PROP_V = ["Props/Properties_C03.v", "Props/Properties_C03b.v"]
-GEN_MODULES = ["Consts", "Sites"]
-FLOW_FILES = ['mu.c', 'once.c', 'counter.c']
+PROP_V = ["Props/Properties_C03.v", "Props/Properties_C03b.v", "Props/Properties_C03c.v"]
+GEN_MODULES = ["Consts", "Sites", "Orders"]
+FLOW_FILES = ['mu.c', 'mu_wait.c', 'once.c', 'counter.c']
 REPLAY_HINT = "VRT_SEED=<seed> [env] _work/h/<scenario>: the runtime's vector-clock detector (harness/rt/vrt.c) reports the unordered pair"
-PARTIAL = ["execution-level hand-off theorems exist for the mutex (C03_mutex_handoff over MuModel), the once word (C03_once_handoff over OnceModel: "
-           "the view at the end of the once-function is contained in the view at EVERY nsync_run_once* return) and the counter "
-           "(C03_counter_handoff(_any), C03_counter_wake_handoff over CounterModel, with the semaphore V->P edge resting on the checked "
-           "premise C03_sem_orders); the note flag and the signal->waiter edge are covered by order lemmas over the regenerated inventory "
-           "(C03_note_flag_orders: every access to `notified` in all 12 files is a release store or an acquire load; C03_publication_orders) "
-           "and by the vector-clock detector on sampled schedules, not by an execution-level theorem; nsync's internal plain fields are "
-           "checked by the detector only",
+PARTIAL = ["execution-level hand-off theorems: mutex over MuModel (C03_mutex_handoff) and over MuWaitModel = mu.c + mu_wait.c, including release by "
+           "blocking in nsync_mu_wait, unlock_without_wakeup, re-acquisition on wake-up / timeout / cancel and the two plain release stores of "
+           "mu_try_acquire_after_timeout_or_cancel (C03_muwait_handoff, for fewer than 2^24-1 threads; C03_muwait_wake_handoff for the waiting flag under an "
+           "explicit reads-from hypothesis); once (C03_once_handoff, C03_once_fn_handoff: already from the END of the once-function); counter "
+           "(C03_counter_handoff(_any) through c->value, C03_counter_wake_handoff through nw->waiting only; the semaphore V->P lemma C03_counter_sem_handoff "
+           "is futex flavour only and not part of the claim); the note flag, the cv signal->waiter edge and wake_waiters' CASes on the mutex word are covered by "
+           "order lemmas on the regenerated inventory (C03_publication_orders, C03_mutex_word_writes, C03_note_flag_orders) and by the vector-clock detector on "
+           "sampled schedules (with client payload data for the note / counter / wait_n hand-offs), not by an execution-level theorem; the W->R downgrade store "
+           "(mu_wait.c:106) is covered as part of the release view's monotonicity, not as a `release' step of its own; nsync's internal plain fields are checked "
+           "by the detector only",
+           "the classification of mutex-word writes into releasing/acquiring (mu_word_releasing/acquiring) and the list of files in all_sites are hand-written; "
+           "C03_mutex_word_writes proves they cover every write in those 12 files",
            "interleaving (SC) semantics for the atomics themselves: non-SC outcomes of relaxed atomics are not explored"]
-TRUSTED_BASE = ["harness/rt/vrt.c vector-clock detector: implements the release/acquire + release-sequence rules stated in Model/HbModel.v; "
+TRUSTED_BASE = ["gen/orders.py: textual extraction of the memory order of each ATM_* macro from platform/c11, gcc_new, c++11 atomic.h and the harness header "
+                "(C03_macro_orders_agree proves the tables equal); platform/gcc/atomic.h chooses gcc_old (full __sync barriers, stronger) or gcc_new by compiler "
+                "version; other flavours (atm-asm, msvc, clang/gcc_old, c_from_c++11) are not read",
+                "gen/sites.py target strings: a mutex word is recognised by the names word.mu / word.pmu / word.cv_mu and the parameter w of "
+                "nsync_spin_test_and_set_ (C03_mutex_word_writes proves every `word.` target is one of these or a cv word)",
+                "harness/rt/vrt.c vector-clock detector: implements the release/acquire + release-sequence rules stated in Model/HbModel.v; "
                 "plain accesses are observed through compile-only -fsanitize=thread instrumentation of the nsync sources and scenarios"]
 
 
